@@ -1,5 +1,6 @@
 import Anndb.Proofs.PartitionRefine
 import Anndb.Model.ListPQ
+import Anndb.Generated
 /-!
 # C04 — Replicas applying the same log hold identical contents; snapshot equals replay
 
@@ -101,6 +102,12 @@ theorem restart_replay (hp : PickOK pick) (hp' : PickOK pick') (log : List Chang
   replicas_agree cfg cfg' dim pick pick' hp hp' _ _ Spec.empty (refines_empty dim) (refines_empty dim) log
 
 end
+
+/-- `snapshot_cut` speaks about the state after a *prefix* of the log. The snapshot the code stores
+is one: it is serialised by the goroutine that applies the entries, between two entries, and is
+labelled with that goroutine's last applied index (regenerated from storage/raft/group.go). -/
+theorem snapshot_is_a_log_prefix :
+    Generated.raftSnapshotInline = true ∧ Generated.raftSnapshotAtLastApplied = true := by decide
 
 /-! ### Non-vacuity: two genuinely different replica implementations -/
 
